@@ -111,6 +111,167 @@ def cheat_scenarios(viol, stats, samples):
             pr.destroy()
 
 
+def _final_state(ans):
+    """`ok pipe=.. cheat=.. total=.. V=.. procs=.. jobs=..` -> dict of ints."""
+    return {k: int(v) for k, v in (f.split("=") for f in ans.split()[1:] if "=" in f)}
+
+
+def lock_wait_scenarios(rng, viol, stats, samples):
+    """Two recipes of a `make -jN` played by the harness (inherited jobserver, k tokens left in the pipe while both
+    run), both top-level redo commands, both wanting target `x`: the WAITER first keeps all its k+1 slots busy with
+    other targets, reaches `x` when the other command already builds it, gives its own token up (release_mine) and
+    blocks on the lock; the other build then fails (or completes) `x`.  Being the top of its redo tree under a foreign
+    jobserver, the waiter has nobody who would honour an IOU: when both commands are gone the pipe must hold exactly
+    the k tokens it held before, and the model's pipe (replay of the js.* events) must agree, with no IOU left."""
+    me = os.getpid()
+    variants = [(0, True), (rng.choice([1, 2]), True), (rng.choice([0, 1]), False)]
+    for vi, (k, fail) in enumerate(variants):
+        log_on = rng.random() < 0.5
+        wcmd = rng.choice(["redo", "redo", "redo-ifchange"])
+        fcmd = rng.choice(["redo", "redo-ifchange"])
+        wopts = ["-k"] if wcmd == "redo" and rng.random() < 0.3 else []
+        for attempt in range(3):
+            scale = 1.0 + attempt            # a lost race is retried with more room
+            pre = ["p%d" % i for i in range(k + 1)]
+            files = {"x.do": "sleep %.2f\necho 'x says so' >&2\n%s" % (1.1 * scale, "exit 3\n" if fail else "echo x\n")}
+            for p in pre:
+                files[p + ".do"] = "sleep %.2f\necho %s\n" % (0.7 * scale, p)
+            pr = Project()
+            ext = sched.ExtJobserver(k)
+            try:
+                for f, body in files.items():
+                    pr.write(f, body)
+                env = ext.env()
+                if not log_on:
+                    env["REDO_LOG"] = "0"
+                cmds = [[wcmd] + wopts + pre + ["x"], [fcmd, "x"]]
+                rs = sched.run_cmds(pr, cmds, env=env, timeout=60, stagger=0.2 * scale, pass_fds=ext.fds())
+                left = ext.count()
+                trace = rs[0].trace
+                stats["runs"] += 1
+                stats["inherited"] += 1
+                stats["with_log"] += 1 if log_on else 0
+                stats["failing"] += 1 if any(r.rc != 0 for r in rs) else 0
+                stats["lock_wait_runs"] = stats.get("lock_wait_runs", 0) + 1
+                tops = {e[0] for e in trace if e[2] == "js.setup" and e[3][1] == "inherited" and int(e[3][2]) == me}
+                gave_up = set()                # top-level processes that released their own token and then blocked on a lock
+                blocked = set()
+                for pid, ts, name, a in trace:
+                    if pid in tops and name == "js.release" and a[0] == "1" and a[2] == "0":
+                        gave_up.add(pid)
+                    elif pid in gave_up and name == "lock.wait.begin":
+                        blocked.add(pid)
+                desc = dict(tokens_in_pipe_before=k, other_build_fails=fail, log=log_on, argvs=cmds, rcs=[r.rc for r in rs],
+                            files=files, waiter_blocked=bool(blocked), attempt=attempt)
+                problems = []
+                if any(r.timed_out for r in rs):
+                    problems.append("the commands did not finish within 60 s")
+                if left != k:
+                    problems.append("inherited jobserver pipe holds %d tokens after `%s` and `%s` have exited, %d before%s"
+                                    % (left, " ".join(cmds[0]), " ".join(cmds[1]), k,
+                                       " (a top-level command gave up its token to wait for the locked target and the other build %s it)"
+                                       % ("failed" if fail else "built") if blocked else ""))
+                rep = sched.replay_tokens(trace, ext_pipe=k)
+                for grp, ans, nev in rep:
+                    stats["events"] += nev
+                    stats["groups"] += 1
+                    if not ans.startswith("ok"):
+                        problems.append("token trace rejected by the model: " + ans)
+                    elif grp == "ext" and not any(r.timed_out for r in rs):
+                        fs = _final_state(ans)
+                        if fs.get("procs") == 0 and (fs.get("pipe") != k or fs.get("cheat") != 0):
+                            problems.append("after the last process of the inherited jobserver has exited the replayed token events leave pipe=%s (was %d) and %s unread IOU(s): a process at the top of its tree exited without the token it had released"
+                                            % (fs.get("pipe"), k, fs.get("cheat")))
+                if problems:
+                    p = write_replay("C08", "lockwait-%d" % vi, dict(kind="impl-monitor+trace", scenario=desc, problems=problems,
+                                                                   stderr=[r.err[-1200:] for r in rs], events=sched.token_groups(trace)))
+                    viol.append(Violation("C08", p, "; ".join(problems)))
+                    return
+                if blocked:
+                    stats["lock_wait_blocked"] = stats.get("lock_wait_blocked", 0) + 1
+                    if fail and any("another thread" in r.err or "failed" in r.err for r in rs):
+                        stats["lock_wait_other_failed"] = stats.get("lock_wait_other_failed", 0) + 1
+                    if len(samples) < 4 and vi == 0:
+                        samples.append(dict(scenario=desc, answer=[a for _, a, _ in rep]))
+                    break
+            finally:
+                ext.close()
+                pr.destroy()
+
+
+def nested_j_scenarios(rng, viol, stats, samples):
+    """A script runs `redo -jM sub` inside a wider build (outer `redo -jN`, or a jobserver with N-1 tokens inherited
+    from the harness), M < N.  The nested redo starts a jobserver of its own; everything below it has to live on those
+    M slots: the scripts of the sub-build (generated, they record work sections) never work more than M at a time (+1
+    for the job the log viewer follows), the whole build never more than N, and the outer tokens are conserved."""
+    first_own = rng.random() < 0.5
+    for vi, (own, M) in enumerate([(first_own, 1), (not first_own, rng.choice([1, 1, 2]))]):
+        N = rng.choice([4, 5])
+        log_on = rng.random() < 0.5
+        g = sched.gen_graph(rng, rng.randint(5, 6), shape=rng.choice(["fan", "diamond"]))
+        for nm in g:
+            g[nm]["dur"] = rng.choice([250, 350, 450]) if len(g[nm]["deps"]) <= 1 else 20
+        pr = Project()
+        ext = None
+        try:
+            extra = {"nest.do": "redo -j%d sub\n" % M, "o1.do": "sleep 0.05\necho o1\n",
+                     "all.do": "redo-ifchange %s\n" % " ".join(rng.sample(["nest", "o1"], 2))}
+            sched.write_project(pr, g, top="sub", extra=extra)
+            env, fds = {}, ()
+            if own:
+                argv = ["redo", "-j%d" % N] + ([] if log_on else ["--no-log"]) + ["all"]
+            else:
+                ext = sched.ExtJobserver(N - 1)
+                env, fds = ext.env(), ext.fds()
+                if not log_on:
+                    env["REDO_LOG"] = "0"
+                argv = rng.choice([["redo", "-j%d" % M, "sub"], ["redo", "all"], ["redo-ifchange", "all"]])
+            r = sched.run_cmds(pr, [argv], env=env, timeout=60, pass_fds=fds)[0]
+            stats["runs"] += 1
+            stats["own" if own else "inherited"] += 1
+            stats["with_log"] += 1 if log_on else 0
+            stats["failing"] += 1 if r.rc != 0 else 0
+            stats["nested_j_runs"] = stats.get("nested_j_runs", 0) + 1
+            sub_ov = sched.max_overlap([w for w in r.work if w[2] in g])
+            ov = sched.max_overlap(r.work)
+            stats["nested_max_overlap"] = max(stats.get("nested_max_overlap", 0), sub_ov)
+            desc = dict(outer="redo -j%d" % N if own else "inherited jobserver, %d tokens in the pipe" % (N - 1), nested="redo -j%d sub" % M,
+                        argv=argv, log=log_on, rc=r.rc, graph={k2: v["deps"] for k2, v in g.items()}, extra=extra,
+                        sub_overlap=sub_ov, overlap=ov)
+            problems = []
+            slack = 1 if log_on else 0
+            if r.timed_out:
+                problems.append("run did not finish within 60 s")
+            if sub_ov > M + slack:
+                problems.append("%d scripts below the nested `redo -j%d sub` were working at the same time (outer %s)" % (sub_ov, M, desc["outer"]))
+            if ov > N + slack:
+                problems.append("%d scripts were working at the same time with %s" % (ov, desc["outer"]))
+            if "on exit: expected" in r.err:
+                problems.append("top-level self-test failed: " + re.search(r"on exit: expected[^\n]*", r.err).group(0))
+            if ext:
+                left = ext.count()
+                if left != N - 1:
+                    problems.append("inherited jobserver pipe holds %d tokens after the run, %d before" % (left, N - 1))
+            rep = sched.replay_tokens(r.trace, ext_pipe=0 if own else N - 1)
+            for grp, ans, nev in rep:
+                stats["events"] += nev
+                stats["groups"] += 1
+                if not ans.startswith("ok"):
+                    problems.append("token trace rejected by the model (jobserver %s): %s" % (grp, ans))
+            stats["nested_jobservers"] = stats.get("nested_jobservers", 0) + max(0, len(rep) - 1)
+            if problems:
+                p = write_replay("C08", "nested-%d" % vi, dict(kind="impl-monitor+trace", scenario=desc, problems=problems, stderr=r.err[-1500:],
+                                                             work=r.work, scripts={k2: pr.read(k2 + ".do").decode() for k2 in list(g) + ["sub", "nest", "all"]}))
+                viol.append(Violation("C08", p, "; ".join(problems) + " (%s)" % " ".join(argv)))
+                return
+            if len(samples) < 5 and vi == 0:
+                samples.append(dict(scenario=desc, answer=[a for _, a, _ in rep]))
+        finally:
+            if ext:
+                ext.close()
+            pr.destroy()
+
+
 def makeflags_level(ctx, rng, viol):
     """The jobserver's wire format: `parse_makeflags` (hook verif_parse_makeflags) against `Makeflags.parse` on token
     sequences around the two option spellings, and the value a real `redo -jN` exports to its scripts against
